@@ -46,6 +46,9 @@ static inline void emitM(const char *suite, const std::string &req, const std::s
 static inline void emitO(const char *suite, const std::string &req, const std::string &real) { fprintf(g_proto, "O\t%s\t%s\t%s\n", suite, req.c_str(), real.c_str()); }
 static inline void emitA(const char *suite, const std::string &prop, const std::string &desc) { fprintf(g_proto, "A\t%s\t%s\t%s\n", suite, prop.c_str(), desc.c_str()); }
 static inline void emitK(const char *suite, const std::string &id, const std::string &desc) { fprintf(g_proto, "K\t%s\t%s\t%s\n", suite, id.c_str(), desc.c_str()); }
+// T: case marker, only with VERIF_TRACE=1 (used to locate the input on which the real code crashed or hung)
+static inline bool tracing() { static int t = -1; if (t < 0) { const char *v = getenv("VERIF_TRACE"); t = (v && *v == '1') ? 1 : 0; } return t == 1; }
+static inline void trace_case(const char *suite, const std::string &desc) { if (tracing()) { fprintf(g_proto, "T\t%s\t-\t%s\n", suite, desc.c_str()); fflush(g_proto); } }
 static inline void emitI(const char *suite, const std::string &key, const std::string &val) { fprintf(g_proto, "I\t%s\t%s\t%s\n", suite, key.c_str(), val.c_str()); }
 
 // ---- one PRNG for every random choice ----
